@@ -1,4 +1,4 @@
-use std::sync::RwLock;
+use std::sync::{Mutex, RwLock};
 use std::{
     collections::{HashMap, HashSet},
     path::Path,
@@ -103,12 +103,18 @@ impl<'a> FilterDataProvider for WrappedBlockView<'a> {
 #[derive(Clone)]
 pub struct Storage {
     pub(crate) db: Arc<DB>,
+    // `add_fetched_tx` decides with the stored record of a transaction if it writes its own
+    // record: `filter_block`, which runs on another thread, must not commit in between.
+    tx_record_lock: Arc<Mutex<()>>,
 }
 
 impl Storage {
     pub fn new<P: AsRef<Path>>(path: P) -> Self {
         let db = Arc::new(DB::open_default(path).expect("Failed to open rocksdb"));
-        Self { db }
+        Self {
+            db,
+            tx_record_lock: Default::default(),
+        }
     }
 
     fn get<K: AsRef<[u8]>>(&self, key: K) -> Result<Option<Vec<u8>>> {
@@ -587,6 +593,7 @@ impl Storage {
     }
 
     pub fn add_fetched_tx(&self, tx: &Transaction, hwe: &HeaderWithExtension) {
+        let _tx_record_guard = self.tx_record_lock.lock().expect("poisoned");
         let mut batch = self.batch();
         let block_hash = hwe.header.calc_header_hash();
         let block_number: u64 = hwe.header.raw().number().unpack();
@@ -710,6 +717,7 @@ impl Storage {
     }
 
     pub fn filter_block(&self, block: Block) {
+        let _tx_record_guard = self.tx_record_lock.lock().expect("poisoned");
         let block_number: BlockNumber = block.header().raw().number().unpack();
         // A script which has been filtered up to a later block has already got this block. When
         // the block is downloaded again for another script, indexing it once more would insert
